@@ -413,6 +413,24 @@ func lastSeg(k string) string {
 	return k
 }
 
+// havocAcquires: a callee that may take locks increases lock-acquisition counters by unknown amounts.
+func (g *Gen) havocAcquires(h *Heap, guard string, recvs bool) *Heap {
+	if _, ok := g.specs.Ghosts["acquires"]; !ok {
+		return h
+	}
+	srt := ArrSort(SInt, SInt)
+	a := h.Get("G.acquires", srt)
+	h2 := h.HavocVars([]string{"G.acquires"})
+	b := h2.Get("G.acquires", srt)
+	g.vc.AssumeAt(guard, fmt.Sprintf("(forall ((m Int)) (! (>= (select %s m) (select %s m)) :pattern ((select %s m))))", b, a, b), "lock acquisition counters only grow")
+	if _, ok := g.specs.Ghosts["slept"]; ok && recvs {
+		s0 := h2.Get("G.slept", SInt)
+		h2 = h2.HavocVars([]string{"G.slept", "G.lastWait"})
+		g.vc.AssumeAt(guard, App(">=", h2.Get("G.slept", SInt), s0), "accumulated timer waits only grow")
+	}
+	return h2
+}
+
 func (g *Gen) havocVarsMono(h *Heap, ws *WriteSet, guard string) *Heap {
 	var names []string
 	for n, s := range ws.Vars {
@@ -425,6 +443,9 @@ func (g *Gen) havocVarsMono(h *Heap, ws *WriteSet, guard string) *Heap {
 	g.vc.AssumeAt(guard, App(">=", g.model.allocNow(h2), g.model.allocNow(h)), "allocation counter is monotone")
 	g.assumeMonotone(h, h2, guard, names)
 	g.assumeFreshOnly(h, h2, guard, ws)
+	if ws.Yields {
+		h2 = g.havocAcquires(h2, guard, ws.Recvs)
+	}
 	return h2
 }
 
@@ -486,6 +507,18 @@ func (g *Gen) applyContract(t callTarget, c *ssa.CallCommon, args []string, recv
 		}
 	default:
 		// extern with a contract but without assigns: assigns nothing
+	}
+	if yields {
+		mentions := false
+		for _, d := range ct.allAssigns() {
+			if strings.HasPrefix(strings.TrimSpace(d), "acquires") || strings.HasPrefix(strings.TrimSpace(d), "lastWait") {
+				mentions = true
+			}
+		}
+		if !mentions {
+			recvs := t.fn != nil && len(t.fn.Blocks) > 0 && g.w.isRepoFunc(t.fn) && g.w.writeSet(t.fn, nil).Recvs
+			post = g.havocAcquires(post, guard, recvs)
+		}
 	}
 	if !pureLike {
 		a0 := g.model.allocNow(post)
